@@ -487,16 +487,56 @@ func runData(c Cfg) *Result {
 	for i := range contents {
 		contents[i] = hash32(fmt.Sprintf("content-%d-%d", c.N%4, i))
 	}
+	// IRIs are determined by the digest AND by the metadata next to it (file extension; canonicalization and merkle
+	// ids; digest id): one time in three the metadata is drawn independently of the digest, so that one message or
+	// one history carries the same digest under different IRIs (doc.tif / doc.tiff, raw / graph of one hash).
+	exts := []string{"pdf", "txt", "bin", "tif", "tiff", "htm", "html", "js", "json5"}
 	raw := func() *data.ContentHash {
 		i := g.R.Intn(len(contents))
+		if g.R.Chance(1, 3) {
+			g.bump("data:same-digest-other-metadata")
+			ch := chain.RawHash(contents[i], exts[g.R.Intn(len(exts))])
+			if g.R.Chance(1, 4) {
+				ch.Raw.DigestAlgorithm = []uint32{2, 255}[g.R.Intn(2)]
+			}
+			return ch
+		}
 		return chain.RawHash(contents[i], []string{"pdf", "txt", "bin"}[i%3])
 	}
-	graph := func() *data.ContentHash_Graph { return chain.GraphHash(contents[g.R.Intn(len(contents))]) }
+	graph := func() *data.ContentHash_Graph {
+		gh := chain.GraphHash(contents[g.R.Intn(len(contents))])
+		if g.R.Chance(1, 3) {
+			g.bump("data:same-digest-other-metadata")
+			gh.CanonicalizationAlgorithm = []uint32{1, 2, 255}[g.R.Intn(3)]
+			gh.MerkleTree = []uint32{0, 1, 255}[g.R.Intn(3)]
+			if g.R.Chance(1, 4) {
+				gh.DigestAlgorithm = 2
+			}
+		}
+		return gh
+	}
 	any := func() *data.ContentHash {
 		if g.R.Bool() {
 			return raw()
 		}
 		return &data.ContentHash{Graph: graph()}
+	}
+	// variant returns a content hash with the digest of h and other metadata (a different IRI)
+	variant := func(h *data.ContentHash) *data.ContentHash {
+		g.bump("data:same-digest-twice-in-one-message")
+		if r := h.GetRaw(); r != nil {
+			if g.R.Chance(1, 4) {
+				return &data.ContentHash{Graph: chain.GraphHash(r.Hash)}
+			}
+			return chain.RawHash(r.Hash, r.FileExtension+"x")
+		}
+		gr := *h.GetGraph()
+		if g.R.Bool() {
+			gr.MerkleTree++
+		} else {
+			gr.CanonicalizationAlgorithm++
+		}
+		return &data.ContentHash{Graph: &gr}
 	}
 	urls := []string{"https://a.example/data", "https://b.example/data", "https://c.example/data"}
 	nBlocks := 5 + g.R.Intn(10)
@@ -519,7 +559,11 @@ func runData(c Cfg) *Result {
 			case r < 60:
 				hs := []*data.ContentHash_Graph{graph()}
 				for g.R.Chance(1, 3) {
-					hs = append(hs, graph())
+					if g.R.Chance(1, 3) {
+						hs = append(hs, variant(&data.ContentHash{Graph: hs[g.R.Intn(len(hs))]}).GetGraph())
+					} else {
+						hs = append(hs, graph())
+					}
 				}
 				g.Do(a.MsgAttest(g.user(), hs...), fmt.Sprintf("attest %d hash(es)", len(hs)))
 			case r < 75:
@@ -543,8 +587,15 @@ func runData(c Cfg) *Result {
 					signer, note = g.otherUser(signer), "register by a non-manager"
 				}
 				hs := []*data.ContentHash{any()}
-				if g.R.Bool() {
-					hs = append(hs, any())
+				for g.R.Chance(2, 5) {
+					switch g.R.Intn(3) {
+					case 0:
+						hs = append(hs, variant(hs[g.R.Intn(len(hs))]))
+					case 1:
+						hs = append(hs, hs[g.R.Intn(len(hs))]) // exact repeat
+					default:
+						hs = append(hs, any())
+					}
 				}
 				g.Do(a.MsgRegisterResolver(signer, rs.ID, hs...), note)
 			}
